@@ -54,6 +54,21 @@ func genC20(g *gen, tier string) *Scenario {
 		}
 		sc.Clients = append(sc.Clients, ops)
 	}
+	// readers keep shards busy (a reader inside a shard lock when an eviction wants it)
+	for c, n := nWaiters+nWriters, g.rng(0, 2); n > 0; n, c = n-1, c+1 {
+		var ops []Op
+		for r := g.rng(3, 14); r > 0; r-- {
+			if g.pct(80) {
+				ops = append(ops, Op{Kind: "get", Key: g.n(4*(nWaiters+nWriters) + 1)})
+			} else {
+				ops = append(ops, Op{Kind: "range", N: g.rng(0, 2)})
+			}
+		}
+		sc.Clients = append(sc.Clients, ops)
+	}
+	if g.pct(40) {
+		sc.Sim.AtomicFiles = []string{"store.go", "entry.go"}
+	}
 	if nWaiters > 1 {
 		sc.Family = "concurrent-waiters"
 	}
@@ -89,8 +104,18 @@ func setupC20(env *simEnv) {
 		busy := map[int]bool{}
 		prevSet := map[int]Rec{} // last accepted set before the last write
 		othersWriting := false
+		loading := rd.Sc.Cache.Kind == "loading"
+		writes := func(k string) bool { return isWrite(k) || (loading && k == "get") } // a loading Get may load and store
 		for _, r := range rd.Recs {
-			if !isWrite(r.Op.Kind) {
+			if !writes(r.Op.Kind) {
+				continue
+			}
+			if r.Op.Kind == "get" {
+				// a load-and-store by a reader: not part of the single-writer order, the key is just busy
+				if r.Ret >= w.Inv {
+					busy[r.Op.Key] = true
+					othersWriting = true
+				}
 				continue
 			}
 			if r.Ret < w.Inv {
@@ -108,7 +133,7 @@ func setupC20(env *simEnv) {
 			}
 		}
 		for _, r := range rd.InFlight {
-			if r != nil && isWrite(r.Op.Kind) {
+			if r != nil && writes(r.Op.Kind) {
 				busy[r.Op.Key] = true
 				othersWriting = true
 			}
@@ -136,6 +161,8 @@ func setupC20(env *simEnv) {
 					for _, x := range sn.Resident {
 						// applied = cost accounted; an applied entry may already be on its
 						// way out again (removed flag) because of a concurrent writer
+						// (with no writer active at all, a resident entry that is already out of the policy
+						// is an eviction that has not been completed: the quiet-accounting rule below reports it)
 						if x.Key == key && (x.PolicyWeight != x.Weight || (!x.InPolicy && x.Flags&flagRemoved == 0)) {
 							rd.violate("C20/returned-early/"+conc+",write-not-applied",
 								fmt.Sprintf("Wait (client %d, inv=%d ret=%d) returned; %s by client %d had returned before it was called but is not applied: inPolicy=%v cost=%d policyCost=%d", client, w.Inv, w.Ret, l.Op, l.Client, x.InPolicy, x.Weight, x.PolicyWeight))
